@@ -1577,7 +1577,7 @@ class Transaction(object):
                 outputs_serialized += int(o.value).to_bytes(8, 'little')
                 outputs_serialized += varstr(o.lock_script)
             hash_outputs = double_sha256(outputs_serialized)
-        elif (hash_type & 0x1f) != SIGHASH_SINGLE and sign_id < len(self.outputs):
+        elif (hash_type & 0x1f) == SIGHASH_SINGLE and sign_id < len(self.outputs):
             outputs_serialized += int(self.outputs[sign_id].value).to_bytes(8, 'little')
             outputs_serialized += varstr(self.outputs[sign_id].lock_script)
             hash_outputs = double_sha256(outputs_serialized)
